@@ -1,0 +1,42 @@
+//go:build verif
+
+// Read-only accessors used by the serialisation round-trip checks of the
+// verification harness in /verif (build tag "verif"): the HNSW construction
+// parameters and the hybrid index's per-document bookkeeping. Nothing here is
+// compiled into normal builds.
+
+package comet
+
+import "sort"
+
+// VerifCodecHNSWParams returns the construction parameters that WriteTo stores and
+// ReadFrom compares (M, efConstruction, efSearch) and the level multiplier.
+func (idx *HNSWIndex) VerifCodecHNSWParams() (m, efConstruction, efSearch int, levelMult float64) {
+	idx.mu.RLock()
+	defer idx.mu.RUnlock()
+	return idx.M, idx.efConstruction, idx.efSearch, idx.levelMult
+}
+
+// VerifCodecDocInfo is one entry of the hybrid index's docInfo map.
+type VerifCodecDocInfo struct {
+	ID          uint32
+	HasVector   bool
+	HasText     bool
+	HasMetadata bool
+}
+
+// VerifCodecHybridDocInfo returns a copy of the docInfo map of an in-memory hybrid
+// index in ascending id order (ok=false when idx is not the in-memory implementation).
+func VerifCodecHybridDocInfo(idx HybridSearchIndex) (out []VerifCodecDocInfo, ok bool) {
+	h, ok := idx.(*hybridSearchIndex)
+	if !ok {
+		return nil, false
+	}
+	h.mu.RLock()
+	defer h.mu.RUnlock()
+	for id, info := range h.docInfo {
+		out = append(out, VerifCodecDocInfo{ID: id, HasVector: info.hasVector, HasText: info.hasText, HasMetadata: info.hasMetadata})
+	}
+	sort.Slice(out, func(i, j int) bool { return out[i].ID < out[j].ID })
+	return out, true
+}
